@@ -259,6 +259,28 @@ peq_harness!(k_peq_6, 6u8);
 peq_harness!(k_peq_7, 7u8);
 peq_harness!(k_peq_8, 8u8);
 
+/// single-pair harnesses (the nine-pairs-per-harness version above exceeds the budget): `contains()` / list membership use
+/// PartialEq, `==` clauses use compare_eq -- on two values of the SAME scalar type they must agree
+macro_rules! peq_same {
+    ($name:ident, $k:expr) => {
+        #[cfg_attr(kani, kani::proof)]
+        #[cfg_attr(kani, kani::unwind(3))]
+        #[cfg_attr(kani, kani::stub(alloc::fmt::format, fmt_stub))]
+        #[cfg_attr(kani, kani::stub(fancy_regex::Regex::new, regex_new_stub))]
+        #[cfg_attr(kani, kani::solver(kissat))]
+        #[cfg_attr(verif_replay, test)]
+        fn $name() {
+            lib_only!();
+            peq_pair($k, $k);
+        }
+    };
+}
+peq_same!(k_peq_same_null, 0u8);
+peq_same!(k_peq_same_bool, 2u8);
+peq_same!(k_peq_same_int, 3u8);
+peq_same!(k_peq_same_float, 4u8);
+peq_same!(k_peq_same_char, 5u8);
+
 /// value-in-range arms of compare_eq delegate to is_within with the operands in the right order
 #[cfg_attr(kani, kani::proof)]
 #[cfg_attr(kani, kani::stub(alloc::fmt::format, fmt_stub))]
